@@ -589,7 +589,7 @@ def gen_graph_cases(ctx):
                 if n < 3 or tier == "thorough":
                     use = perms
                 else:
-                    use = [perms[0], perms[rng.randrange(1, len(perms))]]
+                    use = [perms[rng.randrange(len(perms))]]
                 for pi, p in enumerate(use):
                     for fmt in FMTS[cls]:
                         i += 1
@@ -598,7 +598,7 @@ def gen_graph_cases(ctx):
                                "fam": "str" if fmt == "tetrad" else fams[i % len(fams)],
                                "dtype": ("int", "float")[i % 2], "by_class": i % 3 == 0, "via_arr": i % 5 == 0,
                                "rb": rng.getrandbits(30), "i": i}
-    N = 2500 if tier == "quick" else 40000
+    N = 2000 if tier == "quick" else 40000
     for k in range(N):
         cls = ("admg", "cpdag", "pag", "pag")[k % 4]
         n = rng.choice((4, 4, 5, 5, 6))
@@ -737,7 +737,7 @@ def run(ctx):
     ev, out = ctx["ev"], ctx["out"]
     ev.rule = ("graph cases: every graph of ADMG/CPDAG/PAG on 1-3 nodes over the per-pair configurations the class admits "
                "(ADMG: ->,<-,<->,--, and every two-type combination; CPDAG: ->,<-,--; PAG: ->,<-,<->,--,o-o,o->,<-o,--o,o--; "
-               "directed layer acyclic) x insertion orders (all for n<=2, 2 for n=3 in quick, all in thorough) x every format "
+               "directed layer acyclic) x insertion orders (all for n<=2, one random order for n=3 in quick, all in thorough) x every format "
                "of the class; random graphs n=4..6 with DAG-ordered directed layer, shuffled insertion order, 4 label "
                "families, int/float dtype, class given as string or type. Each case checks export against the documented "
                "matrix (Lean spec table), import(export(G)), import(documented matrix) and re-export; Tetrad through a file "
